@@ -8,7 +8,7 @@ OUT=${1:-/verif/build/l2}
 REPO=${VERIF_REPO:-/repo}
 GO=${GO:-go1.26.8}
 rm -rf "$OUT"; mkdir -p "$OUT/lifecycle"
-FILES="pubsub/bus.go util/runner/runner.go provider/bidengine/service.go provider/bidengine/order.go provider/bidengine/provider_attributes.go provider/cluster/service.go provider/cluster/manager.go provider/cluster/inventory.go provider/cluster/hostname.go provider/cluster/monitor.go provider/cluster/lease_withdraw.go provider/manifest/service.go provider/manifest/manager.go provider/manifest/watchdog.go"
+FILES="pubsub/bus.go events/publish.go util/runner/runner.go provider/bidengine/service.go provider/bidengine/order.go provider/bidengine/provider_attributes.go provider/cluster/service.go provider/cluster/manager.go provider/cluster/inventory.go provider/cluster/hostname.go provider/cluster/monitor.go provider/cluster/lease_withdraw.go provider/manifest/service.go provider/manifest/manager.go provider/manifest/watchdog.go"
 ARGS=""; for f in $FILES; do ARGS="$ARGS $REPO/$f"; done
 ../bin/yieldgen -out "$OUT/gen" -maprange b.subscriptions $ARGS > "$OUT/ov_body.json"
 LC=$($GO list -m -f '{{.Dir}}' github.com/boz/go-lifecycle)
